@@ -301,13 +301,15 @@ def check(case, ctx):
         for name, fn in (('comp', lambda: p.comp(s)), ('comp_estimate', lambda: p.comp(s, estimate_delta=True)),
                          ('mz', lambda: p.mz(s, charge=2)), ('comp_mass', lambda: p.comp_mass(s)),
                          ('fragment', lambda: p.fragment(s, 'b', 1)),
+                         ('mass-ion-b', lambda: p.mass(s, ion_type='b', charge=1)),
+                         ('mass-ion-y', lambda: p.mass(s, ion_type='y', charge=2, monoisotopic=False)),
                          ('condense', lambda: p.condense_to_mass_mods(s))):
             st, v = lib.call(fn)
             ctx.evals += 1
             if st == 'err' and not isinstance(v, ValueError):
                 ctx.fail('deferred-foreign-exception', 'value or ValueError', v, text=s, call=name)
             elif st == 'ok' and not absent and val not in COMP_KEEPS_UNKNOWN_SYMBOL and \
-                    not (name == 'fragment' and slot == 'labile'):   # fragment ions do not carry labile modifications
+                    not (name in ('fragment', 'mass-ion-b', 'mass-ion-y') and slot == 'labile'):   # fragment ions do not carry labile modifications
                 # asking for the composition (or anything derived from mass / composition) raises as well
                 ctx.fail('deferred-silent', 'ValueError', str(v)[:120], text=s, call=name)
         if not slot.startswith('static'):
